@@ -136,6 +136,38 @@ Proof.
   destruct (negb (rate =? 0) && (frames >? 0)); reflexivity.
 Qed.
 
+(* the header before 3.98 (no stored WAVE header: bits_per_sample 0) *)
+Theorem ape_old_header version compression format_flags channels rate header_bytes terminating_bytes frames ffb :
+  0 <= version < 3980 -> 0 <= compression < 65536 -> 0 <= format_flags < 65536 -> 0 <= channels < 65536 ->
+  0 <= rate < 4294967296 -> 0 <= header_bytes < 4294967296 -> 0 <= terminating_bytes < 4294967296 ->
+  0 <= frames < 4294967296 -> 0 <= ffb < 4294967296 ->
+  forall rest,
+  decode_ape (build_ape_old version compression format_flags channels rate header_bytes terminating_bytes frames ffb ++ rest) =
+  Ok (if negb (rate =? 0) && (frames >? 0)
+      then [version; channels; rate; 0; (frames - 1) * spec_ape_old_blocks_per_frame version compression + ffb; rate]
+      else [version; channels; rate; 0; 0; 1]).
+Proof.
+  intros H1 H2 H3 H4 H5 H6 H7 H8 H9 rest.
+  unfold decode_ape.
+  rewrite sub_at_0_app by reflexivity.
+  unfold build_ape_old, ascii_MAC_.
+  rewrite if_false by reflexivity.
+  layout. decode_encode.
+  rewrite if_false by lia.
+  unfold spec_ape_old_blocks_per_frame.
+  change (73728 * 4) with 294912.
+  destruct (negb (rate =? 0) && (frames >? 0)); reflexivity.
+Qed.
+
+(* regression (fixed in /repo 66533d3: the level was compared with 4): version 3.85, "extra high" = 4000, 10 frames of 73728 blocks *)
+Example ape_old_extra_high_regression :
+  build_ape_old 3850 4000 0 2 44100 0 0 10 1000 =
+    [77; 65; 67; 32; 10; 15; 160; 15; 0; 0; 2; 0; 68; 172; 0; 0; 0; 0; 0; 0; 0; 0; 0; 0; 10; 0; 0; 0; 232; 3; 0; 0] ++ repeat 0 44%nat /\
+  decode_ape (build_ape_old 3850 4000 0 2 44100 0 0 10 1000) = Ok [3850; 2; 44100; 0; 664552; 44100] /\
+  decode_ape (build_ape_old 3850 3000 0 2 44100 0 0 10 1000) = Ok [3850; 2; 44100; 0; 83944; 44100] /\
+  decode_ape (build_ape_old 3850 4 0 2 44100 0 0 10 1000) = Ok [3850; 2; 44100; 0; 83944; 44100].
+Proof. repeat split; vm_compute; reflexivity. Qed.
+
 (* ------------------------------------------------------------------ OptimFROG *)
 Theorem ofr_header data_size total sample_type channels rate encoder_id :
   (data_size = 12 \/ 15 <= data_size < 4294967296) -> 0 <= total < 281474976710656 -> 0 <= sample_type <= 7 ->
